@@ -140,4 +140,9 @@ def main_wrap(fn):
     except AnalysisBroken as e:
         print("ANALYSIS-BROKEN: %s" % e)
         sys.exit(2)
+    except Exception as e:            # a crash of the analysis is never a verdict
+        import traceback
+        traceback.print_exc()
+        print("ANALYSIS-BROKEN: internal error: %s: %s" % (type(e).__name__, e))
+        sys.exit(2)
     sys.exit(rc)
